@@ -166,20 +166,23 @@ def new_default_m(code: int, vendor: int, preq: int) -> bool:
     return hx.check((code, vendor, preq), obs, exp, "Avp.new: dictionary class, default M from the entry unless overridden")
 
 
-def register_rt(tidx: int, withvendor: bool, mand: int) -> bool:
+def register_rt(tidx: int, vmode: int, mand: int) -> bool:
     """
-    pre: 0 <= tidx < len(REG_TYPES) and 0 <= mand <= 2
+    pre: 0 <= tidx < len(REG_TYPES) and 0 <= mand <= 2 and 0 <= vmode <= 2
     post: _
     """
     hx.begin()
-    tidx, withvendor, mand = hx.concretize_range(tidx, 0, len(REG_TYPES)), hx.concretize(withvendor), hx.concretize_range(mand, 0, 3)
+    tidx, vmode, mand = hx.concretize_range(tidx, 0, len(REG_TYPES)), hx.concretize_range(vmode, 0, 3), hx.concretize_range(mand, 0, 3)
     T = REG_TYPES[tidx]
     code = P["code"]
-    vendor = P["vendor"] if withvendor else None
+    withvendor = vmode == 1
+    # vmode 0: vendor omitted; 1: a vendor id; 2: the explicit 0 that means "no vendor" everywhere else in the API
+    vendor = [None, P["vendor"], 0][vmode]
     m = [None, False, True][mand]
     from diameter.message.avp import dictionary as D
     saved0 = D.AVP_DICTIONARY.get(code)
     savedv = dict(D.AVP_VENDOR_DICTIONARY.get(P["vendor"], {})) if P["vendor"] in D.AVP_VENDOR_DICTIONARY else None
+    savedz = dict(D.AVP_VENDOR_DICTIONARY.get(0, {})) if 0 in D.AVP_VENDOR_DICTIONARY else None
     try:
         A.register(code, "X-Registered", T, vendor=vendor, mandatory=m)
         v = vendor or 0
@@ -189,7 +192,7 @@ def register_rt(tidx: int, withvendor: bool, mand: int) -> bool:
         other = A.get_avp_dictionary_entry(code, 0 if withvendor else P["vendor"])
         obs = (type(a).__name__, a.is_mandatory, a.name, type(b).__name__, b.name, other is None or other.get("name") != "X-Registered")
     except Exception as e:
-        return hx.fail((tidx, withvendor, mand), "raised " + type(e).__name__)
+        return hx.fail((tidx, vmode, mand), "raised " + type(e).__name__)
     finally:
         if saved0 is None:
             D.AVP_DICTIONARY.pop(code, None)
@@ -199,8 +202,66 @@ def register_rt(tidx: int, withvendor: bool, mand: int) -> bool:
             D.AVP_VENDOR_DICTIONARY.pop(P["vendor"], None)
         else:
             D.AVP_VENDOR_DICTIONARY[P["vendor"]] = savedv
-    return hx.check((tidx, withvendor, mand), obs, (T.__name__, bool(m), "X-Registered", T.__name__, "X-Registered", True),
+        if savedz is None:
+            D.AVP_VENDOR_DICTIONARY.pop(0, None)
+        else:
+            D.AVP_VENDOR_DICTIONARY[0] = savedz
+    return hx.check((tidx, vmode, mand), obs, (T.__name__, bool(m), "X-Registered", T.__name__, "X-Registered", True),
                     "definitions registered at run time are honoured by Avp.new and the decoder")
+
+
+def grp_inplace(c1: int, f1: int, u1: int, u2: int, how: int) -> bool:
+    """
+    pre: 0xf0000000 <= c1 <= 0xffffffff and 0 <= f1 <= 255 and 0 <= u1 <= 0xffffffff and 0 <= u2 <= 0xffffffff and 0 <= how <= 3
+    post: _
+    """
+    hx.begin()
+    how = hx.concretize_range(how, 0, 4)
+    inputs = (c1, f1, u1, u2, how)
+    try:
+        g = AvpGrouped(GRP)
+        k1 = AvpUnsigned32(c1, 0, flags=f1)
+        k1.value = u1
+        k2 = AvpUnsigned32(c1, 0, flags=f1)
+        k2.value = u2
+        if how == 0:
+            g.value.append(k1)               # the idiom documented in AvpGrouped.value
+            g.value.append(k2)
+            kids = [(u1,), (u2,)]
+        elif how == 1:
+            g.value = [k1]
+            g.value.append(k2)               # append to an assigned list
+            kids = [(u1,), (u2,)]
+        elif how == 2:
+            g.value = [k1, k2]
+            k1.value = u2                    # a member modified after it was assigned
+            kids = [(u2,), (u2,)]
+        else:
+            d0 = Avp.from_bytes(ref_avp(GRP, 0, 0, ref_avp(c1, 0, f1, be(u1, 4))))
+            d0.value.append(k2)              # append to the list of a decoded grouped AVP
+            g = d0
+            kids = [(u1,), (u2,)]
+        w = g.as_bytes()
+        d = Avp.from_bytes(w)
+        obs = (w, [(x.payload,) for x in d.value])
+    except Exception as e:
+        return hx.fail(inputs, "raised " + type(e).__name__)
+    if "c01_grouped_inplace" in P.get("carve", ()):
+        # known finding: the encoded form is the snapshot taken by the last assignment to .value (or the decoded bytes);
+        # what is still checked is exactly that snapshot contract
+        kids = [[], [(u1,)], [(u1,), (u2,)], [(u1,)]][how]
+    refpl = b"".join(ref_avp(c1, 0, f1, be(k[0], 4)) for k in kids)
+    return hx.check(inputs, obs, (ref_avp(GRP, 0, 0, refpl), [(be(k[0], 4),) for k in kids]), "Grouped: the list handed out by .value is the value - members appended or changed in place are encoded")
+
+
+def repro_grouped_inplace():
+    """known finding: members appended to / changed in the list handed out by AvpGrouped.value are not encoded"""
+    g = AvpGrouped(GRP)
+    k = AvpUnsigned32(0xf0000001, 0)
+    k.value = 7
+    g.value.append(k)
+    w = g.as_bytes()
+    return len(Avp.from_bytes(w).value) != 1, "AvpGrouped().value.append(avp) encodes %d members" % len(Avp.from_bytes(w).value)
 
 
 REG_TYPES = [AvpOctetString, AvpUtf8String, AvpInteger32, AvpInteger64, AvpUnsigned32, AvpUnsigned64, AvpFloat32, AvpFloat64,
@@ -1040,7 +1101,9 @@ def specs(tier, seed, carve):
     for k in range(2 if q else 6):
         code = rnd.choice([rnd.randrange(0xf0000000, 0xffffffff), 1, 263, 0xffffffff])
         out.append(dict(id="register_rt/%d" % k, fn="register_rt", params={"code": code, "vendor": rnd.choice([99999, 10415, 1, 0xfffffffe])}, timeout=60,
-                        bound="11 type classes x with/without vendor x mandatory in {None, False, True} at a seeded (code, vendor)"))
+                        bound="11 type classes x vendor {omitted, given, explicit 0} x mandatory in {None, False, True} at a seeded (code, vendor)"))
+    out.append(dict(id="grp_inplace", fn="grp_inplace", params={"symdict": True}, timeout=120,
+                    bound="grouped AVP whose member list is changed in place (append to a fresh / assigned / decoded list, member value changed after assignment); member code, flag octet and both Unsigned32 values symbolic"))
     codes = {"Integer32": 47, "Integer64": 447, "Unsigned32": 5, "Unsigned64": 287, "Enumerated": 6}
     for name in INT_TYPES:
         lo, hi = _dom(name)
